@@ -401,17 +401,9 @@ def purity_runs(P):
     return obs, SA
 
 
-def check_C12(P, tier):
-    R = Result("C12", tier)
-    R.min_obligations = 30
-    R.explanation = ("Effect analysis over the call graph rooted at the solver (solver, ivp_solver, the parallelize wrapper, the FFT layer): (R-STATE) every read or "
-                     "write of module-level mutable state on the solve path is enumerated and must be one of the two confirmed instances (config.NUM_THREADS, the "
-                     "FFT-manager singleton); (R-PURE) the abstract runs that differ only in the thread-count decision yield identical normal forms and output "
-                     "transforms, and no argument array is stored into; (R-MEMO) for every keyed store into module-level or closure state, the stored value's "
-                     "dependences are contained in the key's dependences (so a correct memo is accepted and an under-keyed one reported); (R-NOSTATE) the FFT "
-                     "transform methods read no instance state; (R-PREC) 'single' and 'double' compute the same normal forms with the same shapes and any other "
-                     "value raises. Bit-identity, the 1e-12/1e-5 agreement and FFTW planner effects are rounding/runtime clauses and are not decided.")
-    R.trusted = [TRUST12]
+def solve_state_obligations(P):
+    """R-STATE / R-MEMO over the call graph rooted at the solver: what one solve can leave behind for the next"""
+    out = []
     m = P.module("bldfm.solver")
     G = CallGraph(P, [(m, P.function("bldfm.solver", "steady_state_transport_solver"), None)])
     state, reads, writes = state_accesses(P, G)
@@ -426,11 +418,28 @@ def check_C12(P, tier):
         seen.add((st, modname, fname))
         ok = st in ALLOWED_STATE
         if not ok and state.get(st) == "container" and keyed_ok.get(st[1]) and all(keyed_ok[st[1]]):
-            R.add(req_ob("R-STATE", "src/%s.py::%s" % (modname.replace(".", "/"), fname), "module state %s.%s is a completely keyed memo (accepted; see R-MEMO)" % st, True, key={"state": "%s.%s" % st}))
+            out.append(req_ob("R-STATE", "src/%s.py::%s" % (modname.replace(".", "/"), fname), "module state %s.%s is a completely keyed memo (accepted; see R-MEMO)" % st, True, key={"state": "%s.%s" % st}))
             continue
-        R.add(req_ob("R-STATE", "src/%s.py::%s" % (modname.replace(".", "/"), fname), "module state %s.%s accessed on the solve path is a confirmed, value-neutral instance" % st, ok,
-                     detail=ALLOWED_STATE.get(st) if ok else "new module-level state on the solve path: a later solve can observe an earlier one unless the state is completely keyed (see R-MEMO)", key={"state": "%s.%s" % st}))
-    R.add(memo)
+        out.append(req_ob("R-STATE", "src/%s.py::%s" % (modname.replace(".", "/"), fname), "module state %s.%s accessed on the solve path is a confirmed, value-neutral instance" % st, ok,
+                          detail=ALLOWED_STATE.get(st) if ok else "new module-level state on the solve path: a later solve can observe an earlier one unless the state is completely keyed (see R-MEMO)", key={"state": "%s.%s" % st}))
+    out.extend(memo)
+    return out, G
+
+
+def check_C12(P, tier):
+    R = Result("C12", tier)
+    R.min_obligations = 30
+    R.explanation = ("Effect analysis over the call graph rooted at the solver (solver, ivp_solver, the parallelize wrapper, the FFT layer): (R-STATE) every read or "
+                     "write of module-level mutable state on the solve path is enumerated and must be one of the two confirmed instances (config.NUM_THREADS, the "
+                     "FFT-manager singleton); (R-PURE) the abstract runs that differ only in the thread-count decision yield identical normal forms and output "
+                     "transforms, and no argument array is stored into; (R-MEMO) for every keyed store into module-level or closure state, the stored value's "
+                     "dependences are contained in the key's dependences (so a correct memo is accepted and an under-keyed one reported); (R-NOSTATE) the FFT "
+                     "transform methods read no instance state; (R-PREC) 'single' and 'double' compute the same normal forms with the same shapes and any other "
+                     "value raises. Bit-identity, the 1e-12/1e-5 agreement and FFTW planner effects are rounding/runtime clauses and are not decided.")
+    R.trusted = [TRUST12]
+    obs, G = solve_state_obligations(P)
+    R.add(obs)
+    state = module_state(P)
     # module-level containers written on the path but never keyed (plain global lists etc.) are caught by R-STATE; keyed ones by R-MEMO
     R.add(fft_wrapper_obligations(P))
     R.add(thread_flow_obligations(P, G))
@@ -667,10 +676,15 @@ def check_C14(P, tier):
                      "in configuration order whose entries are those series; each parallel strategy ('towers', 'time', 'both') must use only Executor.map (no submit / "
                      "as_completed), hand each worker a task tuple that the worker unpacks into the same (config, tower, met_index) call, and re-assemble the flat "
                      "result list exactly at the task boundaries; every worker sets NUM_THREADS=1 and drops the FFT singleton before solving; a cache is attached only "
-                     "in footprint mode with caching on. Actual completion orders are covered by the map contract (trusted), not explored.")
+                     "in footprint mode with caching on, and - because the statement covers caching switched on - the cache's key-completeness, same-key, hit and freshness rules of C15 are "
+                     "included as necessary conditions. (R-STEP-INDEP) a mapping filled and consulted inside a step loop must be keyed by the step. Actual completion orders are covered by the map contract (trusted), not explored.")
     R.trusted = ["concurrent.futures.Executor.map returns results in the order of its input regardless of completion order", "dict preserves insertion order", TRUST12]
     R.add(driver_obligations(P))
     R.add(pc.make_cache_obligation(P))
+    # "with result caching switched on or off": the series shares one cache between its single runs, so the drivers equal
+    # the single runs only if the cache is transparent (C15's key and hit rules are necessary conditions here)
+    R.add(pc.solver_cache_obligations(P))
+    R.add(pc.cache_entry_obligations(P))
     R.add([o for o in pw.range_steps_obligations(P)])
     R.add(pw.scratch_memo_obligations(P))
     R.add(pw.interface_memo_obligations(P))
